@@ -361,8 +361,10 @@ def explorations(tier):
     if tier == "quick":
         return [("api plans x scopes x faults x registry x observers, W=1, <= 1 preemption", FACTORY, cfgs(tier, 1), {"preempt": 1, "random": 1, "yield": 1}),
                 ("same, W=2, <= 1 preemption, <= 1 non-default choice at blocking points", FACTORY, cfgs(tier, 2), {"preempt": 1, "random": 1, "yield": 1})]
-    return [("api plans x scopes x faults x registry x observers, W=1, b<=1", FACTORY, cfgs(tier, 1), {"preempt": 1, "random": 1}),
-            ("same, W=2, b<=2 (yield<=2)", FACTORY, cfgs(tier, 2), {"preempt": 2, "random": 1, "yield": 2})]
+    w2 = [c for c in cfgs(tier, 2) if c["observer"] == "rec"]
+    return [("api plans x scopes x faults x registry x observers, W=1, b<=1", FACTORY, cfgs(tier, 1), {"preempt": 1, "random": 1, "yield": 2}),
+            ("same, W=2, single recorder, b<=1 (yield<=2)", FACTORY, w2, {"preempt": 1, "random": 1, "yield": 2}),
+            ("quick-tier W=2 configurations, b<=2 (yield<=1)", FACTORY, cfgs("quick", 2), {"preempt": 2, "random": 1, "yield": 1})]
 
 
 def run(tier):
